@@ -35,6 +35,13 @@ Tuned ==
     UNION {{[op |-> "encode2", tag |-> "tuned", resp |-> m.resp, cap |-> N, stale |-> << >>] :
                N \in {n \in TunedCaps : m.len - n \in Window}} : m \in Families}
 
+\* every member of every family against the capacities len-1 and len, whatever they are (the
+\* tuned capacities above are the ones a transport would use; an encoder that estimates the
+\* encoded length goes wrong at ITS thresholds, not at the transport's)
+OwnLength ==
+    UNION {{[op |-> "encode2", tag |-> "own-length", resp |-> m.resp, cap |-> N, stale |-> << >>] :
+               N \in {m.len - 1, m.len} \cap Caps} : m \in Families}
+
 EmptyBodies ==
     {RespCase(k, v, N, "empty-body") :
         N \in {1, 2, 3, 64},
@@ -82,7 +89,7 @@ Largest ==
            {[op |-> "encode2", tag |-> "largest", resp |-> r, cap |-> N, stale |-> << >>] :
                N \in {len - 1, len, len + 1, 1024, 3072, 7609} \cap Caps} : r \in LatticeResps}
 
-MC_Cases == Tuned \cup EmptyBodies \cup Smallest \cup Planted \cup EveryCap \cup Largest
+MC_Cases == Tuned \cup OwnLength \cup EmptyBodies \cup Smallest \cup Planted \cup EveryCap \cup Largest
 
 \* the status byte in front of every kind of response, fitting and not, with and without previous
 \* contents in the buffer (C18: the numbers of Success and Other as emitted)
